@@ -363,6 +363,7 @@ def _generate_once(r, filt, profile):
         marg = ['none', 'empty'][int(r.integers(2))]
         trace.append(dict(kind='no_measurements', form=marg))
     knobs['measurements_arg'] = marg
+    knobs['rerun'] = bool(r.random() < 0.12)
     p_none = 0.3 if profile == 'sched' else 0.1
     knobs['gyro_model'] = gen_sensor_model(r, 'gyro', p_none=p_none)
     knobs['accel_model'] = gen_sensor_model(r, 'accel', p_none=p_none)
@@ -419,6 +420,7 @@ def materialise(sc, fence_only=False, fresh_spies=True):
     init = W.perturb_pva(pva0, scale * np.asarray(kn['init_err'], dtype=float))
     init.name = float(stamps[0])
     meas = []
+    delivery = []
     for s in sc['sensors']:
         data = W.aiding_samples(s['cls'], reference, wd, s['stamps'], s['sd'], s['lever'],
                                 s['noise_seed'], scale=scale)
@@ -428,8 +430,9 @@ def materialise(sc, fence_only=False, fresh_spies=True):
         else:
             obj = cls(data, s['sd'] * scale,
                       None if s['lever'] is None else np.asarray(s['lever'], dtype=float))
+        obj.spy_delivery = delivery
         meas.append(obj)
-    out = dict(in_fence=ok, increments=inc, increments_clean=inc_clean,
+    out = dict(in_fence=ok, delivery=delivery, increments=inc, increments_clean=inc_clean,
                reference=reference, initial=init, measurements=meas,
                t_start=float(stamps[0]), t_end=float(stamps[-1]), with_altitude=wa)
     if sc['filter'] == 'feedforward':
@@ -498,10 +501,18 @@ class RunOutcome:
         self.kwargs = None
 
 
-def run_filter(sc, m, budget=None):
-    """Run the real filter of scenario ``sc`` on materialised ``m`` under monitors."""
+def reset_spies(m):
+    for obj in m['measurements']:
+        obj.spy_log.clear()
+    m['delivery'].clear()
+
+
+def run_filter(sc, m, budget=None, reuse=None):
+    """Run the real filter of scenario ``sc`` on materialised ``m`` under monitors.
+    ``reuse``: keyword arguments of an earlier run (same model / measurement objects)."""
     kn = sc['knobs']
-    kw = filter_kwargs(sc, m)
+    kw = dict(reuse) if reuse is not None else filter_kwargs(sc, m)
+    kw.pop('increments', None)
     scale = float(kn.get('error_scale', 1.0))
     sig = [float(s) * scale for s in kn['sigmas']]
     out = RunOutcome()
